@@ -225,6 +225,7 @@ def parse_out(s):
 class C11(PropBase):
     pid = "C11"
     coq_dirs = ["Base", "C08", "C11"]
+    translators = []
     bins = ["c11"]
     rule = ("case = records of one symbol file (FILE, INLINE_ORIGIN inside/outside FUNC blocks, PUBLIC, FUNC with line and "
             "multi-range INLINE records, STACK WIN) + module base/size + query instructions (every record boundary +-1, one below "
